@@ -8,7 +8,7 @@ import (
 func dumpProgs(n int) {
 	r := NewRNG(deriveSeed(baseSeedFromEnv(), 101, 0))
 	for i := 0; i < n; i++ {
-		ps := genProgram(r, fmt.Sprintf("gen%04d", i), false)
+		ps := genProgram(r, fmt.Sprintf("gen%04d", i), false, true)
 		os.WriteFile(fmt.Sprintf("/tmp/gp/%s.nas", ps[0].Name), ps[0].Source(), 0644)
 	}
 }
